@@ -1716,42 +1716,52 @@ def load_corpus() -> list[dict[str, Any]]:
 def run(ctx) -> Result:
     res = Result(PID)
     res.rule = (
-        "gated runs of CallableParallelExecution: every completion order the pool allows for <= 3 tasks (thorough: <= 5) x "
+        "gated runs of CallableParallelExecution: every completion order the pool allows for <= 3 tasks (thorough: <= 4) x "
         "worker counts 1..n+1 x every assignment ok/raises/raises-a-re-raised-class, random scripts for 4-8 tasks incl. a "
-        "collector blocked inside callbacks, thread and process back-ends; a case is non-trivial when it has >= 2 tasks; "
-        "distinct by (configuration, script)"
+        "collector blocked inside callbacks, thread and process back-ends; gated/ladder parallel DOEs vs sequential DOEs; gated "
+        "DiscParallelExecution/Linearization, MDOParallelChain, parallel FD/centered/complex-step, shared MemoryFullCache; "
+        "a case is non-trivial when it has >= 2 tasks; distinct by (configuration, script)"
     )
     res.assumptions = [
-        "inputs of one gated run are distinct (equal inputs would hide an index mix-up)",
+        "inputs of one gated run are distinct (equal inputs would hide an index mix-up); repeated inputs/samples are used in the ungated (duration-ladder) runs",
         "a wait longer than 20 s for an expected event is reported as a hang",
+        "task functions are deterministic functions of their input (a repeated DOE sample fails at all its occurrences or at none)",
     ]
     rng = ctx.rng
-    t_pool = ctx.t0 + (ctx.deadline - ctx.t0) * 0.5
+    span = ctx.deadline - ctx.t0
+    walls: dict[str, float] = {}
+
+    def timed(name, fn, *args):
+        t = time.time()
+        fn(*args)
+        walls[name] = round(time.time() - t, 1)
+
     corpus = load_corpus()
-    pool_corpus = [c["case"] for c in corpus if c.get("kind") == "pool"]
-    check_pool_cases(res, pool_corpus, rng, "corpus", t_pool)
     res.count("corpus", len(corpus))
+    t_pool = ctx.t0 + span * 0.5
+    timed("corpus-pool", check_pool_cases, res, [c["case"] for c in corpus if c.get("kind") == "pool"], rng, "corpus", t_pool)
     ex = exhaustive_cases(rng, 4 if ctx.thorough else 3, "oFS")
-    check_pool_cases(res, ex, rng, "thread-exhaustive", t_pool)
+    timed("thread-exhaustive", check_pool_cases, res, ex, rng, "thread-exhaustive", t_pool)
     res.exhaustive = True
-    rnd = [random_case(rng, "thread") for _ in range(2000 if ctx.thorough else 250)]
-    check_pool_cases(res, rnd, rng, "thread-random", t_pool)
+    rnd = [random_case(rng, "thread") for _ in range(3000 if ctx.thorough else 250)]
+    timed("thread-random", check_pool_cases, res, rnd, rng, "thread-random", t_pool)
     prc = exhaustive_cases(rng, 3 if ctx.thorough else 2, "oFS", backend="process")
-    prc += [random_case(rng, "process", 3, 6) for _ in range(300 if ctx.thorough else 40)]
-    check_pool_cases(res, prc, rng, "process-gated", t_pool)
-    t_doe = ctx.t0 + (ctx.deadline - ctx.t0) * 0.7
-    doe_corpus = [c["case"] for c in corpus if c.get("kind") == "doe"]
-    n_doe = 200 if ctx.thorough else 24
-    doe_cases = doe_corpus + [gen_doe_case(rng, "gated") for _ in range(n_doe)] + [gen_doe_case(rng, "ladder") for _ in range(n_doe // 3)]
-    check_doe_cases(res, doe_cases, t_doe)
-    t_disc = ctx.t0 + (ctx.deadline - ctx.t0) * 0.85
-    disc_corpus = [c["case"] for c in corpus if c.get("kind") == "disc"]
-    disc_cases = disc_corpus + [gen_disc_case(rng) for _ in range(600 if ctx.thorough else 70)]
-    check_disc_cases(res, disc_cases, t_disc)
-    cache_corpus = [c["case"] for c in corpus if c.get("kind") == "cache"]
-    check_cache_cases(res, cache_corpus + [gen_cache_case(rng) for _ in range(300 if ctx.thorough else 30)], ctx.t0 + (ctx.deadline - ctx.t0) * 0.9)
-    fd_corpus = [c["case"] for c in corpus if c.get("kind") == "fd"]
-    check_fd_cases(res, fd_corpus + [gen_fd_case(rng) for _ in range(300 if ctx.thorough else 30)], ctx.t0 + (ctx.deadline - ctx.t0) * 0.92)
+    prc += [random_case(rng, "process", 3, 6) for _ in range(400 if ctx.thorough else 24)]
+    timed("process-gated", check_pool_cases, res, prc, rng, "process-gated", t_pool)
+    n_doe = 240 if ctx.thorough else 18
+    doe_cases = [c["case"] for c in corpus if c.get("kind") == "doe"]
+    doe_cases += [gen_doe_case(rng, "gated") for _ in range(n_doe)] + [gen_doe_case(rng, "ladder") for _ in range(n_doe // 3)]
+    timed("doe", check_doe_cases, res, doe_cases, ctx.t0 + span * 0.7)
+    disc_cases = [c["case"] for c in corpus if c.get("kind") == "disc"]
+    disc_cases += [gen_disc_case(rng) for _ in range(800 if ctx.thorough else 60)]
+    timed("disc", check_disc_cases, res, disc_cases, ctx.t0 + span * 0.85)
+    cache_cases = [c["case"] for c in corpus if c.get("kind") == "cache"]
+    cache_cases += [gen_cache_case(rng) for _ in range(400 if ctx.thorough else 24)]
+    timed("cache", check_cache_cases, res, cache_cases, ctx.t0 + span * 0.92)
+    fd_cases = [c["case"] for c in corpus if c.get("kind") == "fd"]
+    fd_cases += [gen_fd_case(rng) for _ in range(400 if ctx.thorough else 24)]
+    timed("fd", check_fd_cases, res, fd_cases, ctx.t0 + span * 0.98)
+    res.extra["stream_wall_s"] = walls
     return res
 
 
